@@ -61,6 +61,7 @@ impl Source {
     fn push_str_impl(&mut self, src: &str, interpret_syntax: bool) {
         let lines = src.lines().collect::<Vec<_>>();
         for (i, line) in lines.iter().enumerate() {
+            let continues_line = self.continuing_line;
             if !self.continuing_line {
                 if !line.is_empty() {
                     for _ in 0..self.indent {
@@ -81,7 +82,10 @@ impl Source {
                     self.s.pop();
                 }
             }
-            self.s.push_str(if lines.len() == 1 {
+            // Leading whitespace is only indentation, and thus replaced, when
+            // this line starts at the beginning of a line in the buffer. Text
+            // continuing an existing line keeps its interior whitespace.
+            self.s.push_str(if lines.len() == 1 || continues_line {
                 line
             } else {
                 line.trim_start()
